@@ -78,6 +78,11 @@ def run(facts, res):
             none_e, nl = d["None"]
             some_e, sl = d["Some"]
             hdr = header_of(sb)
+            # only inserts of this loop's body count (the empty-destination shortcut may be a loop of its own)
+            from .. import iters as _it
+            body_ = _it.loop_body_blocks(ma, hdr)
+            all_ins = ins_blocks
+            ins_blocks = [i for i in all_ins if i in body_]
             # (a) not-found arm: the header is unreachable without passing an insert
             a_ok = not cfg.reaches(none_e, hdr, avoid=set(ins_blocks))
             # (b) at most one insert per iteration
@@ -95,14 +100,15 @@ def run(facts, res):
                         elem_ok = False
             res.instance("M2", "merge loop: not-found arm always inserts (%s), exactly once (%s), found arm never inserts (%s), inserted value = current element (%s)" % (
                 a_ok, b_ok, c_ok, elem_ok), ma.loc(ma.blocks[sb].term.line))
+            ins_blocks = all_ins
             if not (a_ok and b_ok and c_ok and elem_ok):
                 res.violation("M2", "merge_arrays|insert-discipline", "merge_arrays: not-found arm always inserts: %s, exactly once: %s, found arm never inserts: %s, inserts the current element: %s" % (
                     a_ok, b_ok, c_ok, elem_ok), ma.loc(ma.blocks[sb].term.line))
         # empty-destination shortcut copies every element of the source
         sc = False
-        for b in facts.closures_of(ma.path):
+        for b in [ma] + facts.closures_of(ma.path):
             for bi, t in b.calls():
-                if t.callee is not None and t.callee.name == "push" and contains_call(du_of(b).operand_term(t.args[1], 8), "clone"):
+                if t.callee is not None and t.callee.name == "push" and len(t.args) > 1 and contains_call(du_of(b).operand_term(t.args[1], 8), "clone"):
                     sc = True
         res.instance("M2", "empty destination: every source element is pushed (for_each + push(clone)): %s" % sc, ma.loc())
 
@@ -134,7 +140,7 @@ def run(facts, res):
                     if not any(l.kind == "variant" and l.variants <= {"Break", "Err"} for l in lits):
                         early.append((x, y))
                 it = du.operand_term(b.blocks[hdrs[-1]].term.args[0], 20)
-                names = [callee_name(x) for x in walk(it) if x[0] == "call"]
+                names = [callee_name(x) for x in walk(it, False) if x[0] == "call"]
                 whole = "get_leafs" in names and not (set(names) & {"take", "skip", "filter", "step_by", "take_while", "skip_while", "rev"})
             src = du.operand_term(t.args[0], 16)
             per_leaf = contains_call(src, R.name("rebuilder")) and contains_call(src, "next")
